@@ -34,7 +34,8 @@ def replay(job):
                 if fault["kind"] == "nomatch" and fault["k"] == k + 1 and fault["j"] == j + 1:
                     lines.append(["ver=", "pep="][j] + "none here")
                 else:
-                    lines.append(["ver=" + old, "pep=" + pep][j])
+                    # a matching pattern may occur on several lines (what counts is that every PATTERN is found, not how many matches there are)
+                    lines += [["ver=" + old, "pep=" + pep][j]] * rng.choice([1, 1, 2, 3])
             proj.write(name, "\n".join(lines) + "\n")
         proj.write("other.txt", "unrelated %s\n" % old)
         fv = None
@@ -104,7 +105,7 @@ def run(ctx):
             ctx.nontriv(e["dbg"])
     ctx.exhaustive = not ctx.quick
     ctx.rule = ("every terminal state of MC_C06 (projects of 1..%d files x 1..2 patterns, every single fault position, commit on/off with a fake git, dry/real, v2 and legacy engine) "
-                "replayed against the real `update` with the config file's own entry at a varying position; quick: all cases up to 3 files + 500 sampled larger ones; "
+                "replayed against the real `update` with the config file's own entry at a varying position and matching patterns occurring on 1..3 lines; quick: all cases up to 3 files + 500 sampled larger ones; "
                 "non-trivial = cases with a fault" % maxf)
     for e in events[5:8]:
         ctx.sample(dict(what=e["dbg"], exit=e["exit"], changed=e["changed"]))
